@@ -255,6 +255,14 @@ class ExecutionState:
         # Operations whose parent has completed
         self._parent_done: set[str] = set()
 
+        # CONTEXT operations whose completion record was handed over in this invocation, and
+        # operation_id -> parent_id as seen in updates; both protected by _parent_done_lock.
+        # Used to reject updates from below a completed context even when the operation is new
+        # or its ancestors were started in an earlier invocation (and so never went through
+        # _parent_to_children here).
+        self._completed_contexts: set[str] = set()
+        self._parent_of: dict[str, str | None] = {}
+
         # Protects parent_to_children and parent_done
         self._parent_done_lock: Lock = Lock()
         self._replay_status: ReplayStatus = replay_status
@@ -437,16 +445,28 @@ class ExecutionState:
                         operation_update.operation_id
                     )
 
+                self._parent_of[operation_update.operation_id] = (
+                    operation_update.parent_id
+                )
+
+                # Check if this operation's parent is done: either it was marked as an orphan,
+                # or one of its ancestors is a context that has already been completed.
+                is_orphan: bool = (
+                    operation_update.operation_id in self._parent_done
+                    or self._has_completed_ancestor(operation_update.parent_id)
+                )
+
                 # Handle CONTEXT completion - mark descendants while holding lock
                 if (
-                    operation_update.operation_type == OperationType.CONTEXT
+                    not is_orphan
+                    and operation_update.operation_type == OperationType.CONTEXT
                     and operation_update.action
                     in {OperationAction.SUCCEED, OperationAction.FAIL}
                 ):
                     self._mark_orphans(operation_update.operation_id)
+                    self._completed_contexts.add(operation_update.operation_id)
 
-                # Check if this operation's parent is done
-                if operation_update.operation_id in self._parent_done:
+                if is_orphan:
                     logger.debug(
                         "Rejecting checkpoint for operation %s - parent is done",
                         operation_update.operation_id,
@@ -528,6 +548,25 @@ class ExecutionState:
             self.stop_checkpointing()
             # Raise the original exception unwrapped
             raise bg_error.source_exception from bg_error
+
+    def _has_completed_ancestor(self, parent_id: str | None) -> bool:
+        """True if parent_id or any of its ancestors is a context completed in this invocation.
+
+        Must be called while holding _parent_done_lock.
+        """
+        seen: set[str] = set()
+        current: str | None = parent_id
+        while current and current not in seen:
+            if current in self._completed_contexts or current in self._parent_done:
+                return True
+            seen.add(current)
+            if current in self._parent_of:
+                current = self._parent_of[current]
+            else:
+                with self._operations_lock:
+                    known = self.operations.get(current)
+                current = known.parent_id if known else None
+        return False
 
     def _mark_orphans(self, context_id: str) -> None:
         """Mark all descendants (direct and transitive) as orphaned.
